@@ -128,7 +128,16 @@ Inductive wop :=
 | WSubRet (s : nat) (r : N)                 (* Subscribe returned: 0 (s,nil)  1 (s,err)  2 (nil,err) *)
 | WCancelSub (s : nat)                      (* context of Subscribe s cancelled *)
 | WUnsub (s : nat) (k : nat) (fr : option (N * N))  (* Unsubscribe started; eth_unsubscribe frame (id, subid) seen, if any *)
-| WUnsubRet (s : nat) (ok : bool) (closed : bool)   (* Unsubscribe returned; notifications channel observed closed *)
+| WSubBuildFail (s : nat) (r : N)
+    (* Subscribe() with a parameter that cannot be marshalled: buildRequest fails inside sendSubscribe, after
+       addConfiguredSub and before addInflightSub: (nil, err), nothing stays configured, no id consumed *)
+| WDropAbort (resub : list (nat * N)) (s : nat)
+    (* a reconnect whose hook re-requested [resub] (in that order, with those ids) and then gave up because the
+       request for s could not be built (no id consumed for s) *)
+| WUnsubRet (s : nat) (ok : bool) (closed : bool) (dec : bool)
+    (* Unsubscribe returned; notifications channel observed closed; dec = the result the SCRIPT put on the reply to
+       its eth_unsubscribe decodes into a Go bool (true/false/null/absent; true when no reply was sent) - taken
+       from what the script sent, never from what the client returned *)
 | WDrop (resub : list (nat * N))            (* connection closed by the server; after the reconnect the server
                                                received these eth_subscribe frames (sub, id), in order *)
 | WSubs (l : list nat)                      (* Subscriptions(): the local ids, sorted *)
@@ -319,14 +328,14 @@ Definition wop_step (w : wstate) (o : wop) : wstate + N :=
           | _, _ => inr 8%N
           end
       end
-  | WUnsubRet s ok closed =>
+  | WUnsubRet s ok closed dec =>
       let w1 := match w_upc w s with
                 | UCall k =>
                     match (match w_cpc w k with
                            | CWait _ => steps w [ECallRecv k; ECallRemove k]
                            | CGot _ _ => steps w [ECallRemove k]
                            | _ => None end) with
-                    | Some w' => wstep w' (EUnsubAfterCall s)
+                    | Some w' => wstep w' (EUnsubAfterCall s dec)
                     | None => None
                     end
                 | UClosing => Some w
@@ -371,6 +380,30 @@ Definition wop_step (w : wstate) (o : wop) : wstate + N :=
                    | _ => inr 1%N
                    end
       | None => inr 1%N
+      end
+  | WSubBuildFail s r =>
+      match steps w [ESubCfg s; ESubBuildFail s; ESubRemoveCfg s] with
+      | Some w1 => match w_spc w1 s with
+                   | SDone None => if (r =? 2)%N then inl w1 else inr 9%N
+                   | _ => inr 1%N
+                   end
+      | None => inr 1%N
+      end
+  | WDropAbort resub s =>
+      match wstep w EClear with
+      | None => inr 1%N
+      | Some w1 =>
+          match rc_deliver_all (S (length (w_calls w))) w1 with
+          | None => inr 1%N
+          | Some w2 =>
+              match rc_resub w2 resub with
+              | inr c => inr c
+              | inl w3 => match wstep w3 (ERcBuildFail s) with
+                          | Some w4 => inl w4
+                          | None => inr 17%N   (* s was not due (not configured / already re-requested) *)
+                          end
+              end
+          end
       end
   | WSubSendFail s r =>
       match steps w [ESubCfg s; ESubInflight s; ESubSend s false; ESubRemoveCfg s] with
